@@ -469,6 +469,17 @@ func checkC05(ctx *core.Ctx, rep *core.Report) {
 		report(st, c05State(st, nrep, seedList[:1], rep))
 		rep.Inc("map_order_states_on_repeated_list_elements")
 	})
+	// revocation lists over the entry-list product (common.go): repetition, read-only and two map-iteration starts
+	maxLen := 2
+	if !ctx.Quick() {
+		maxLen = 3
+	}
+	n := crlEntryStates(ctx, all, maxLen, func(st *xstate.State) {
+		rep.Inc("states")
+		report(st, c05Repeat(st, rep))
+		report(st, c05State(st, 2, seedList[:1], rep))
+	})
+	rep.Add("crl_entry_list_states", int64(n))
 }
 
 // c05Histories: every ordered pair (and triples over a subset) of lint calls —
